@@ -77,38 +77,43 @@ func LexReal(input string) (res LexResult, crash string) {
 	}
 }
 
-// compareLex returns "" if the observed result is the expected one, else
-// ("tokens"|"position", description). Values are compared for the kinds the
-// property names; skipV suppresses the value comparison of a token whose
-// expected value the model did not determine.
-func compareLex(exp, got LexResult) (class, what string) {
+// compareLex compares the observed result with the expected one and returns a
+// description per class: "tokens" (C03: kinds, extents, values, failure
+// point) and "position" (C04: start offset, line, column of each token).
+// Values are compared for the kinds the property names; a nil expected value
+// means the model did not determine it.
+func compareLex(exp, got LexResult) map[string]string {
+	out := map[string]string{}
 	n := len(exp.Toks)
 	if len(got.Toks) < n {
 		n = len(got.Toks)
 	}
-	posOnly := ""
 	for i := 0; i < n; i++ {
 		e, g := exp.Toks[i], got.Toks[i]
 		if e.K != g.K || e.S != g.S || e.E != g.E {
-			return "tokens", fmt.Sprintf("token %d: expected %s[%d,%d) got %s[%d,%d)", i, e.K, e.S, e.E, g.K, g.S, g.E)
+			if out["tokens"] == "" {
+				out["tokens"] = fmt.Sprintf("token %d: expected %s[%d,%d) got %s[%d,%d)", i, e.K, e.S, e.E, g.K, g.S, g.E)
+			}
+			if e.K == g.K && e.S != g.S && out["position"] == "" {
+				out["position"] = fmt.Sprintf("token %d (%s): expected start offset %d, got %d", i, e.K, e.S, g.S)
+			}
+			continue
 		}
-		if valuedKinds[e.K] && e.V != nil && !eqInts(e.V, g.V) {
-			return "tokens", fmt.Sprintf("token %d (%s): expected value %q got %q", i, e.K, fromCps(e.V), fromCps(g.V))
+		if valuedKinds[e.K] && e.V != nil && !eqInts(e.V, g.V) && out["tokens"] == "" {
+			out["tokens"] = fmt.Sprintf("token %d (%s): expected value %q got %q", i, e.K, fromCps(e.V), fromCps(g.V))
 		}
-		if (e.L != g.L || e.C != g.C) && posOnly == "" {
-			posOnly = fmt.Sprintf("token %d (%s at offset %d): expected line %d column %d, got line %d column %d", i, e.K, e.S, e.L, e.C, g.L, g.C)
+		if (e.L != g.L || e.C != g.C) && out["position"] == "" {
+			out["position"] = fmt.Sprintf("token %d (%s at offset %d): expected line %d column %d, got line %d column %d", i, e.K, e.S, e.L, e.C, g.L, g.C)
 		}
 	}
-	if len(exp.Toks) != len(got.Toks) {
-		return "tokens", fmt.Sprintf("expected %d tokens, got %d (expected err=%v, got err=%v)", len(exp.Toks), len(got.Toks), exp.Err, got.Err)
+	if out["tokens"] == "" {
+		if len(exp.Toks) != len(got.Toks) {
+			out["tokens"] = fmt.Sprintf("expected %d tokens, got %d (expected err=%v, got err=%v)", len(exp.Toks), len(got.Toks), exp.Err, got.Err)
+		} else if exp.Err != got.Err {
+			out["tokens"] = fmt.Sprintf("after %d tokens: expected err=%v, got err=%v", len(exp.Toks), exp.Err, got.Err)
+		}
 	}
-	if exp.Err != got.Err {
-		return "tokens", fmt.Sprintf("after %d tokens: expected err=%v, got err=%v", len(exp.Toks), exp.Err, got.Err)
-	}
-	if posOnly != "" {
-		return "position", posOnly
-	}
-	return "", ""
+	return out
 }
 
 func eqInts(a, b []int) bool {
@@ -201,8 +206,7 @@ type stepOut struct {
 
 type LexMismatch struct {
 	Input    []int     `json:"input"`
-	Class    string    `json:"class"`
-	What     string    `json:"what"`
+	Classes  map[string]string `json:"classes"`
 	Expected LexResult `json:"expected"`
 	Observed LexResult `json:"observed"`
 	Crash    string    `json:"crash,omitempty"`
@@ -212,6 +216,34 @@ type lexWalkStats struct {
 	Inputs, Nontrivial int64
 	Mismatches         []LexMismatch
 	NMismatch          map[string]int64
+	kept               map[string]int
+}
+
+func (st *lexWalkStats) record(mu *sync.Mutex, input []int, exp, got LexResult, crash string) {
+	var cl map[string]string
+	if crash != "" {
+		cl = map[string]string{"tokens": crash, "position": crash}
+	} else {
+		cl = compareLex(exp, got)
+	}
+	if len(cl) == 0 {
+		return
+	}
+	mu.Lock()
+	for k := range cl {
+		st.NMismatch[k]++
+		st.kept[k]++
+	}
+	keep := false
+	for k := range cl {
+		if st.kept[k] <= 60 {
+			keep = true
+		}
+	}
+	if keep {
+		st.Mismatches = append(st.Mismatches, LexMismatch{Input: input, Classes: cl, Expected: exp, Observed: got, Crash: crash})
+	}
+	mu.Unlock()
 }
 
 func readAction(a string) (int, bool) {
@@ -236,7 +268,7 @@ func WalkLexGraph(c *core.Ctx, g *tlc.Graph, workers int) *lexWalkStats {
 			return nil
 		}
 	}
-	st := &lexWalkStats{NMismatch: map[string]int64{}}
+	st := &lexWalkStats{NMismatch: map[string]int64{}, kept: map[string]int{}}
 	var mu sync.Mutex
 	var inputs, nontrivial int64
 
@@ -303,20 +335,7 @@ func WalkLexGraph(c *core.Ctx, g *tlc.Graph, workers int) *lexWalkStats {
 		if len(exp.Toks) >= 3 || (exp.Err && len(exp.Toks) >= 1) {
 			atomic.AddInt64(&nontrivial, 1)
 		}
-		class, what := "", ""
-		if crash != "" {
-			class, what = "tokens", crash
-		} else {
-			class, what = compareLex(exp, got)
-		}
-		if class != "" {
-			mu.Lock()
-			st.NMismatch[class]++
-			if len(st.Mismatches) < 200 {
-				st.Mismatches = append(st.Mismatches, LexMismatch{Input: f.input, Class: class, What: what, Expected: exp, Observed: got, Crash: crash})
-			}
-			mu.Unlock()
-		}
+		st.record(&mu, f.input, exp, got, crash)
 	}
 	var dfs func(f frame)
 	dfs = func(f frame) {
@@ -425,7 +444,7 @@ func lexCasesCfg(devs []string, sigma []int, maxLen int, prefix, suffix string) 
 // RunLexCases lets TLC print every case of a Lexer_Cases configuration with
 // its expected tokens and runs each through the real lexer as it arrives.
 func RunLexCases(c *core.Ctx, devs []string, sigma []int, maxLen int, prefix, suffix string) *lexWalkStats {
-	st := &lexWalkStats{NMismatch: map[string]int64{}}
+	st := &lexWalkStats{NMismatch: map[string]int64{}, kept: map[string]int{}}
 	var mu sync.Mutex
 	lines := make(chan string, 4096)
 	var wg sync.WaitGroup
@@ -454,20 +473,7 @@ func RunLexCases(c *core.Ctx, devs []string, sigma []int, maxLen int, prefix, su
 				if len(cs.R.Toks) >= 2 && len(cs.R.Toks[0].V) > 0 {
 					atomic.AddInt64(&st.Nontrivial, 1)
 				}
-				class, what := "", ""
-				if crash != "" {
-					class, what = "tokens", crash
-				} else {
-					class, what = compareLex(cs.R, got)
-				}
-				if class != "" {
-					mu.Lock()
-					st.NMismatch[class]++
-					if len(st.Mismatches) < 200 {
-						st.Mismatches = append(st.Mismatches, LexMismatch{Input: cs.In, Class: class, What: what, Expected: cs.R, Observed: got, Crash: crash})
-					}
-					mu.Unlock()
-				}
+				st.record(&mu, cs.In, cs.R, got, crash)
 			}
 		}()
 	}
